@@ -6,6 +6,11 @@ HERE = os.path.dirname(os.path.dirname(os.path.abspath(__file__)))
 ALL = ["C%02d" % i for i in range(1, 21)]
 
 CLAIMED = {
+ "C18": dict(
+   technique="TLA+ case-table model Dispatch.tla of method selection for the ten functionals, enumerated exhaustively by TLC with the predicted outcome per row; every row executed on the real functional; caller-supplied callables probed (arguments, options, gradient mode) and their first/second-order gradients compared with a built-in method",
+   text="TLC enumerates every (functional, class of the method argument {None, exact name, mixed-case name, unknown string, callable, non-callable}, built-in name) row (118 rows) and checks case-insensitivity, rejection of unknown names / non-callables, acceptance of callables and that defaults are built-ins; the deviation 'name compared before lower-casing' is caught. Each row is executed: the real functional must accept/reject exactly as predicted. For each functional a closed-form (graph-free) or wrapping callable is supplied: it must receive the documented positional arguments and the caller's extra forward option, never the backward options, run with gradient recording disabled (implicit-gradient functionals), and the value and the first- and second-order gradients must equal those of a built-in method reaching the same solution; a callable given only in bck_options must be used, with its options, in the backward pass.",
+   design_ref="5.4, 6 (C18)",
+   note="Trusted: TLC/SANY; the method tables in Dispatch.tla are transcribed from the documentation. scipy_gmres resolves but cannot run with the installed SciPy (keyword `tol` removed) - not counted. Interp1D/SQuad callables are classes through which autograd differentiates directly, so gradient recording stays on there."),
  "C01": dict(
    technique="TLA+ models IterSolve.tla (solve pipeline and Krylov loop skeleton) and SolveShape.tla/Bcast.tla (output-shape table) checked exhaustively by TLC; executions recorded through the krylov.* hooks and the API boundary validated by TLC against Trace_IterSolve.tla with numeric verdicts in the final event; the whole shape table replayed on the real solve",
    text="TLC checks for every method x {E absent, present} x zero/non-zero right-hand side and every choice of per-iterate (passed, improved) flags within the budget: the result is handed back in the caller's layout, a warning is raised iff no iterate passed every column's threshold, a silent return hands back an iterate that passed, the budget is respected; three deviation switches (layout not restored by gmres, best-by-maximum instead of the iterate that passed, lost warning) are caught. ~1300 (quick) real executions over 6 methods x {no E, E, E+M, M only} x {SPD, indefinite Hermitian, non-Hermitian with prescribed singular values} x {dense, mv-only, mv+rmv, sums, Jacobian operators} x {float64, complex128} x batch patterns x zero RHS x tight budgets must be behaviours of the model (hook events bind k, hit, improved, which iterate is returned, layout flags) and carry the verdicts: shape = broadcast, dtype kept, true residual of AX - MXE = B within the stated bound, agreement with an independent dense column-by-column solution, silence where the property demands it. The complete broadcast table of (A, B, E, M) batch shapes (TLC-enumerated) is replayed on exactsolve, cg and bicgstab incl. the zero-RHS shortcut.",
